@@ -6,34 +6,34 @@ def chk(id, category, text, note, technique, design_ref):
     CHECKS[id] = dict(category=category, text=text, note=note, technique=technique, design_ref=design_ref)
 
 chk("C07", "model_checking",
-    "Deviation-bounded exhaustive exploration of the real record reader: every input up to length 6 (thorough 8) over a per-RS alphabet, delivered in every one of its 2^(n-1) chunkings with both EOF styles, plus an empty read and a read error at every position, single split points of longer inputs and separators straddling the 64 KiB scanner buffer; each execution is compared with an all-at-once specification splitter, the reconstruction equations and the unchunked delivery. Also: cmd | getline / cmd | getline var on a command's output pipe delivered in every chunking (vexec seam), and RS assigned by the program in mid-input (12 old/new RS pairs x every chunking, differential oracle).",
+    "Deviation-bounded exhaustive exploration of the real record reader: every input up to length 6 (thorough 8) over a per-RS alphabet, delivered in every one of its 2^(n-1) chunkings with both EOF styles, plus an empty read and a read error at every position, single split points of longer inputs and separators straddling the 64 KiB scanner buffer; each execution is compared with an all-at-once specification splitter, the reconstruction equations and the unchunked delivery. Also: cmd | getline / cmd | getline var on a command's output pipe delivered in every chunking (vexec seam), and RS assigned by the program in mid-input (12 old/new RS pairs x every chunking, differential oracle). RS changed from a regex to each single character incl. every regex metacharacter (specification oracle) and to bytes that are not valid UTF-8 (no panic, delivery independence); one-byte invalid RS among other invalid bytes and split multi-byte characters.",
     "bufio.Scanner's behaviour depends only on the (n,err) sequence of Read results; Go regexp as a leaf of the spec splitter; RS settings and alphabets listed in DESIGN.md §5 C07.",
     "exhaustive enumeration of environment answers (read chunkings) on the real code against a reference splitter",
     "DESIGN.md §5 C07")
 
 chk("C01", "model_checking",
-    "Bounded-exhaustive enumeration of a feature-product program grammar (every lvalue kind x assignment/op=/++/-- x rhs x statement/expression form x scope; every comparison over 14 operand types x 11 condition constructs; concatenation chains in every grouping; user-call shapes; builtins; loop nests with break/continue at every placement; pattern/getline/IO forms; thorough: all ordered pairs of 50 statements), each program run on the real compiler+VM and on an independent tree-walking reference evaluator (stdout, files written, exit status, error outcome must agree), plus metamorphic groups of equivalent spellings that must behave identically. Also: values of !, && and || in 8 value contexts (grouped with their ?: spelling), cross-record and cache-overflow programs, and a long-run family (1300 records: next/nextfile/exit/return/getline/close/delete in functions and loops).",
+    "Bounded-exhaustive enumeration of a feature-product program grammar (every lvalue kind x assignment/op=/++/-- x rhs x statement/expression form x scope; every comparison over 14 operand types x 11 condition constructs; concatenation chains in every grouping; user-call shapes; builtins; loop nests with break/continue at every placement; pattern/getline/IO forms; thorough: all ordered pairs of 50 statements), each program run on the real compiler+VM and on an independent tree-walking reference evaluator (stdout, files written, exit status, error outcome must agree), plus metamorphic groups of equivalent spellings that must behave identically. Also: values of !, && and || in 8 value contexts (grouped with their ?: spelling), cross-record and cache-overflow programs, and a long-run family (1300 records: next/nextfile/exit/return/getline/close/delete in functions and loops). Further families: self-referencing assignments (v = v op e where e changes v), statements whose bodies are all empty around side-effecting / failing conditions, deep recursion with locals re-read after nested calls, programs that run after the regex / format caches are full.",
     "Reference evaluator shares only lexer+parser with the implementation and is validated on every run against the repository's own test table (disagreement = harness error). Defects needing more than the stated program sizes are out of reach.",
     "complete enumeration of a program grammar fragment on the real code, differential against a reference model + metamorphic equivalence",
     "DESIGN.md §5 C01")
 chk("C09", "model_checking",
-    "Complete product of conversions x all 32 flag subsets x widths x precisions (literal and *) x 64 argument values through sprintf and printf, byte and character mode, compared with the C library's snprintf (helper process) on arguments converted the AWK way by the harness; plus pairs of conversions, %%, too-few-arguments and unknown-conversion error cases for every byte, and print under 12 OFMT values. Also: every format used twice in one interpreter and after a different format (format cache), argument-count error required on reuse.",
+    "Complete product of conversions x all 32 flag subsets x widths x precisions (literal and *) x 64 argument values through sprintf and printf, byte and character mode, compared with the C library's snprintf (helper process) on arguments converted the AWK way by the harness; plus pairs of conversions, %%, too-few-arguments and unknown-conversion error cases for every byte, and print under 12 OFMT values. Also: every format used twice in one interpreter and after a different format (format cache), argument-count error required on reuse. print under OFMT also in csv and tsv output mode.",
     "glibc snprintf is the oracle; combinations the C standard leaves undefined are no-crash only (listed in the evidence assumptions).",
     "complete enumeration of format specifications x argument values against the C library",
     "DESIGN.md §5 C09")
 chk("C17", "model_checking",
-    "Signatures synthesised with reflect.FuncOf/MakeFunc: every documented kind in every parameter position (<=3, thorough 4), variadic on/off, all result shapes, wide (6-9 params), defined types, invalid shapes, keyword names, several invalid at once; each called with every argument count x 81 AWK values; received Go values, results, error propagation, set-up rejection and parse-time arity errors compared with an independent conversion table; map iteration orders of Funcs driven through the permutation hook. OFMT differs from CONVFMT in every run (number to string parameter conversion uses CONVFMT).",
+    "Signatures synthesised with reflect.FuncOf/MakeFunc: every documented kind in every parameter position (<=3, thorough 4), variadic on/off, all result shapes, wide (6-9 params), defined types, invalid shapes, keyword names, several invalid at once; each called with every argument count x 81 AWK values; received Go values, results, error propagation, set-up rejection and parse-time arity errors compared with an independent conversion table; map iteration orders of Funcs driven through the permutation hook. OFMT differs from CONVFMT in every run (number to string parameter conversion uses CONVFMT). Also: calls with fewer arguments after calls with more within one run; Go functions shadowed by AWK functions of the same name (every subset of three x three name sets); 6 error values (incl. io.EOF, context.Canceled, wrapped) x 6 calling contexts.",
     "Out-of-range float->integer conversions are no-panic only; conversion table written from the Config.Funcs documentation.",
     "complete enumeration of Go function signatures x argument counts x values on the real code against a conversion table",
     "DESIGN.md §5 C17")
 
 chk("C02", "model_checking",
-    "Four parts: (a) 120 statement templates x hostile values (nan, +-inf, huge, negative, fractional, empty, invalid UTF-8, NUL, 70000-byte strings, regex/format metacharacters) in every argument position x Chars x {default,CSV,TSV,CSV+header} x sandbox flags, every byte string of length <=2 over 10 bytes as FS/RS/SUBSEP/OFS/ORS/CONVFMT/OFMT, INPUTMODE/OUTPUTMODE strings, must-error programs; (b) every sequence of <=3 record operations in CSV modes; (c) every accepted source among all sequences of <=3 (thorough 4) token atoms and the C01 program space under non-default configurations with a VM step budget; (d) a bytecode verifier that exhaustively explores the (ip, stack depth) control-flow automaton of every compiled block of every program seen (no pop below base, equal depth at joins, jump targets on instruction boundaries, operand indexes within tables, call arity) - that part holds for all inputs of each verified program.",
+    "Four parts: (a) 120 statement templates x hostile values (nan, +-inf, huge, negative, fractional, empty, invalid UTF-8, NUL, 70000-byte strings, regex/format metacharacters) in every argument position x Chars x {default,CSV,TSV,CSV+header} x sandbox flags, every byte string of length <=2 over 10 bytes as FS/RS/SUBSEP/OFS/ORS/CONVFMT/OFMT, INPUTMODE/OUTPUTMODE strings, must-error programs; (b) every sequence of <=3 record operations in CSV modes; (c) every accepted source among all sequences of <=3 (thorough 4) token atoms and the C01 program space under non-default configurations with a VM step budget; (d) a bytecode verifier that exhaustively explores the (ip, stack depth) control-flow automaton of every compiled block of every program seen (no pop below base, equal depth at joins, jump targets on instruction boundaries, operand indexes within tables, call arity) - that part holds for all inputs of each verified program. The CSV record-state part toggles INPUTMODE in mid-run; templates with an already active regex / paragraph reader on a file stream when RS / FS change; var=value operands include invalid INPUTMODE / OUTPUTMODE separators.",
     "Every program x every input is undecidable: decided is the listed product plus, per program, absence of stack/jump/index faults for all inputs. Stack-effect table derived by hand from interp/vm.go, keyed by opcode name.",
     "complete enumeration of hostile-value/config products on the real code + explicit-state exploration of the bytecode control-flow automaton",
     "DESIGN.md §5 C02, Appendix A")
 chk("C03", "model_checking",
-    "Every sequence of <=4 (thorough 5) atoms over a 41-atom alphabet hitting every lexer branch, every prefix / single-byte deletion / single-byte substitution (9 bytes) of every source in the repository's corpus, and nesting towers up to 32 KiB: ParseProgram must return (no panic), an error position must lie inside the source, every token position reported by the real lexer (driven through every Scan/ScanRegex continuation) must equal the position computed by an independent reference lexer and offset map, and the real CLI binary must show the offending line without a Go panic for every distinct error class. Also: token sequences over a 36-token parser-oriented alphabet (all of length <=4, length 5 [6] starting with a statement keyword) as the body of BEGIN { } and at top level; the CLI must name the file and a line of it in every parse error.",
+    "Every sequence of <=4 (thorough 5) atoms over a 41-atom alphabet hitting every lexer branch, every prefix / single-byte deletion / single-byte substitution (9 bytes) of every source in the repository's corpus, and nesting towers up to 32 KiB: ParseProgram must return (no panic), an error position must lie inside the source, every token position reported by the real lexer (driven through every Scan/ScanRegex continuation) must equal the position computed by an independent reference lexer and offset map, and the real CLI binary must show the offending line without a Go panic for every distinct error class. Also: token sequences over a 36-token parser-oriented alphabet (all of length <=4, length 5 [6] starting with a statement keyword) as the body of BEGIN { } and at top level; the CLI must name the file and a line of it in every parse error. Part (e): every sequence of <=3 statements over a 29-statement alphabet (loops with empty bodies, jump statements in and out of place) in 5 containers.",
     "Independent 120-line reference lexer; CLI observed once per (message kind x position class), at most 2000 process runs.",
     "complete enumeration of source texts over a token-atom alphabet and of single-edit mutations of the corpus, against a reference lexer",
     "DESIGN.md §5 C03")
@@ -43,49 +43,49 @@ chk("C04", "model_checking",
     "complete enumeration of expression trees up to a size bound; parse result compared with the generator's tree",
     "DESIGN.md §5 C04")
 chk("C05", "model_checking",
-    "Every string of length <=4 (thorough 5) over {0 1 9 . + - e E x space} plus ~200 exotic strings, in 22 provenances (field, $0, getline forms, split, ARGV, ENVIRON, -v, operand assignment, constants, computed), probed with 7 truth forms, arithmetic, string conversion and the six comparison operators (plain opcodes, fused jumps, ternary) against ~100 partners each; all pairs of strings of length <=3; ~15k numbers under 9 CONVFMT/OFMT settings; compared with an independent reference value model (own looks-numeric recogniser, prefix conversion, number-to-string and comparison rules).",
+    "Every string of length <=4 (thorough 5) over {0 1 9 . + - e E x space} plus ~200 exotic strings, in 22 provenances (field, $0, getline forms, split, ARGV, ENVIRON, -v, operand assignment, constants, computed), probed with 7 truth forms, arithmetic, string conversion and the six comparison operators (plain opcodes, fused jumps, ternary) against ~100 partners each; all pairs of strings of length <=3; ~15k numbers under 9 CONVFMT/OFMT settings; compared with an independent reference value model (own looks-numeric recogniser, prefix conversion, number-to-string and comparison rules). Part 2: 12 numbers x 7 CONVFMT values as subscripts written as literal / variable / computed / string form (also multi-dimensional, in, delete, after a CONVFMT change): all spellings name one element.",
     "Forms POSIX leaves open (hex, inf/nan spellings, overflow, non-ASCII blanks) are checked for self-consistency only (one number per string).",
     "complete enumeration of strings/numbers/pairs over small alphabets against a reference value model",
     "DESIGN.md §5 C05, Appendix B")
 chk("C10", "model_checking",
-    "substr/length/index on every string of length <=3 (thorough 4) over {a,b,e-acute,0xff} x 44 positions x 45 lengths (fractions, negatives, 2^31, 2^53, 2^63, 2^64, 1e30, 1e308, +-inf, nan) in byte and character mode; split with 14 single-character separators; match/sub/gsub for every regex of <=3 atoms over 13 atoms x every subject x 116 replacement strings; int() on 78 arguments up to MaxFloat64 - each compared with the property's defining equations evaluated by the harness and an own leftmost-longest matcher (Go regexp only cross-checked). Also: every top-level alternation X|Y of sequences of 1..2 atoms over {a b ^ $ a*}.",
+    "substr/length/index on every string of length <=3 (thorough 4) over {a,b,e-acute,0xff} x 44 positions x 45 lengths (fractions, negatives, 2^31, 2^53, 2^63, 2^64, 1e30, 1e308, +-inf, nan) in byte and character mode; split with 14 single-character separators; match/sub/gsub for every regex of <=3 atoms over 13 atoms x every subject x 116 replacement strings; int() on 78 arguments up to MaxFloat64 - each compared with the property's defining equations evaluated by the harness and an own leftmost-longest matcher (Go regexp only cross-checked). Also: every top-level alternation X|Y of sequences of 1..2 atoms over {a b ^ $ a*}. Regex patterns on which leftmost-first and leftmost-longest differ are also run after 130 other regexes were compiled (cache full); the subject alphabet contains a stray UTF-8 continuation byte; index() occurrences are character-aligned in character mode.",
     "NaN arguments are no-crash only; index(s, \"\") and backslashes not followed by & in replacements accept both common readings.",
     "complete enumeration of subjects x patterns x replacements x numeric arguments against the defining equations",
     "DESIGN.md §5 C10")
 chk("C13", "model_checking",
-    "X: every sequence of <=3 (thorough 4) operations over 17 kinds (print/printf to stdout, >, >>, two commands, close, fflush, system, cmd|getline, getline<file, exit statuses, exit, run-time error) on the real interpreter over virtual child processes against a destination model (file bytes, close() results, per-source stdout projections, order constraints), with unbuffered and buffered Config.Output; S: for sequences with a child sharing stdout, every schedule of program, child and copy threads within a deviation bound under a cooperative scheduler in which each Write to Config.Output is a two-event critical section (overlap = violation; deadlock = violation); D: a write failure injected at every byte offset of standard output for 11 output paths x {unbuffered, bufio}, plus the CLI with stdout=/dev/full. Also: a named stream that fails every flush (/dev/full) among files and commands: the others must still be flushed before system() and fflush() must report -1.",
+    "X: every sequence of <=3 (thorough 4) operations over 17 kinds (print/printf to stdout, >, >>, two commands, close, fflush, system, cmd|getline, getline<file, exit statuses, exit, run-time error) on the real interpreter over virtual child processes against a destination model (file bytes, close() results, per-source stdout projections, order constraints), with unbuffered and buffered Config.Output; S: for sequences with a child sharing stdout, every schedule of program, child and copy threads within a deviation bound under a cooperative scheduler in which each Write to Config.Output is a two-event critical section (overlap = violation; deadlock = violation); D: a write failure injected at every byte offset of standard output for 11 output paths x {unbuffered, bufio}, plus the CLI with stdout=/dev/full. Also: a named stream that fails every flush (/dev/full) among files and commands: the others must still be flushed before system() and fflush() must report -1. Also: printf formatting to nothing as first / later use of a file (> and >>) or command; one file appended to (>>) through two names and by a real child in turn.",
     "os/exec and child processes are replaced by the vexec model (trusted to reflect os/exec's documented behaviour: copy goroutine for non-*os.File Stdout, Wait waits for copying); kernel pipe buffering is not modelled.",
     "explicit enumeration of operation sequences against a model + stateless schedule exploration (deviation-bounded) + exhaustive fault-offset enumeration",
     "DESIGN.md §5 C13, Appendix D")
 chk("C14", "model_checking",
-    "Explicit-state breadth-first search over histories of Execute/ExecuteContext/ResetVars/ResetRand on one Interpreter (30 operations in quick, 39 in thorough: plain/CSV/TSV/header runs, Vars and Args, run-time errors in function/loop/for-in/rule, exit in BEGIN/rule/END, cancellation at several VM steps, streams left open, sandbox flags, rejected configurations) to depth 2 (thorough 3), states de-duplicated by a canonical dump of the interpreter's persistent fields; in every state two oracles over 9 probe configurations: ResetVars+ResetRand+Execute(probe) equals ExecProgram on a fresh interpreter, and without ResetVars everything except variables/arrays equals fresh. The state dump includes the regex and format caches; histories include runs aborted while a range pattern is open, runs that leave command streams open and runs whose context is cancelled after normal completion; the probe runs system(), cmd | getline, print | cmd (in-process command stand-in), a %c format and dynamic regexes shared with the history.",
+    "Explicit-state breadth-first search over histories of Execute/ExecuteContext/ResetVars/ResetRand on one Interpreter (30 operations in quick, 39 in thorough: plain/CSV/TSV/header runs, Vars and Args, run-time errors in function/loop/for-in/rule, exit in BEGIN/rule/END, cancellation at several VM steps, streams left open, sandbox flags, rejected configurations) to depth 2 (thorough 3), states de-duplicated by a canonical dump of the interpreter's persistent fields; in every state two oracles over 9 probe configurations: ResetVars+ResetRand+Execute(probe) equals ExecProgram on a fresh interpreter, and without ResetVars everything except variables/arrays equals fresh. The state dump includes the regex and format caches; histories include runs aborted while a range pattern is open, runs that leave command streams open and runs whose context is cancelled after normal completion; the probe runs system(), cmd | getline, print | cmd (in-process command stand-in), a %c format and dynamic regexes shared with the history. Further histories: runs that seed without drawing random numbers, runs aborted inside functions with filled local arrays; the probe reads a local array before filling it.",
     "State dump (VerifDump) is over-fine by design; successor = replay of the history on a fresh Interpreter plus one operation.",
     "explicit-state BFS over operation histories of the real object with canonical state hashing, differential against a fresh instance",
     "DESIGN.md §5 C14")
 chk("C15", "model_checking",
-    "For 14 programs (tight loops, nested calls, recursion, for-in, main-loop rules, END loop, pending output, getline loop, error/exit after loops) the context is cancelled before VM step k for every k<=300, every 7th k<=3000 and every 61st to the end (thorough: every k<=3000, every 7th beyond), with unbuffered and buffered output, plus pre-cancelled and expired contexts: at most 1500 further steps, the context's error (or normal completion within those steps), printed output delivered and a prefix of the uncancelled output; for 6 programs waiting on child processes every placement of the cancel among the scheduling points of the virtual process world within a deviation bound (no deadlock, stop within the step limit); never-cancelled ExecuteContext equals Execute on ~1500 programs. After a cancellation a run that ends with the program's own error is a violation (context error preferred); programs with errors in BEGIN/function/rule/END/for-in; children whose descendant keeps the output pipe open (WaitDelay modelled); never-cancelled equivalence also for 9 programs with child processes.",
+    "For 14 programs (tight loops, nested calls, recursion, for-in, main-loop rules, END loop, pending output, getline loop, error/exit after loops) the context is cancelled before VM step k for every k<=300, every 7th k<=3000 and every 61st to the end (thorough: every k<=3000, every 7th beyond), with unbuffered and buffered output, plus pre-cancelled and expired contexts: at most 1500 further steps, the context's error (or normal completion within those steps), printed output delivered and a prefix of the uncancelled output; for 6 programs waiting on child processes every placement of the cancel among the scheduling points of the virtual process world within a deviation bound (no deadlock, stop within the step limit); never-cancelled ExecuteContext equals Execute on ~1500 programs. After a cancellation a run that ends with the program's own error is a violation (context error preferred); programs with errors in BEGIN/function/rule/END/for-in; children whose descendant keeps the output pipe open (WaitDelay modelled); never-cancelled equivalence also for 9 programs with child processes. Record-driven programs (bare regex patterns, negated, expression, range, several rules) on 6000 records delivered one per Read: records consumed after the cancellation; contexts with a recorded cause: the error returned must be ctx.Err() itself.",
     "Alarm threshold 1500 steps for 'about a thousand' (the code polls every 1000); child processes are the vexec model.",
     "exhaustive enumeration of cancellation points (VM steps, scheduling points) on the real interpreter",
     "DESIGN.md §5 C15")
 chk("C19", "model_checking",
-    "(1) Every map-range site executed by resolver/compiler during ParseProgram is a choice point over a permutation menu; for programs with 2-3 independent type errors, call-graph shapes, native+AWK function mixes and the repository's own sources, all parses with <=1 (thorough 2) non-sorted site executions must give the same verdict, message, position, compiled code, constants, function table, printed source and disassembly as the sorted-order parse; (2) the Program's fingerprint is unchanged by two rounds of executions (including failing ones) of ~1500 programs and the second round repeats the first; (3) 2 and 3 interpreters sharing one Program run as cooperative threads yielding at every VM instruction: all schedules within a deviation bound give each interpreter its single-run result. The Program comparison is a reflective deep dump (unexported fields, spare capacity, regexes); package-level variables of all goawk packages are dumped around executions; a supplementary free-running -race pass (harness/cmd/vrace) runs the sharing programs with real goroutines.",
+    "(1) Every map-range site executed by resolver/compiler during ParseProgram is a choice point over a permutation menu; for programs with 2-3 independent type errors, call-graph shapes, native+AWK function mixes and the repository's own sources, all parses with <=1 (thorough 2) non-sorted site executions must give the same verdict, message, position, compiled code, constants, function table, printed source and disassembly as the sorted-order parse; (2) the Program's fingerprint is unchanged by two rounds of executions (including failing ones) of ~1500 programs and the second round repeats the first; (3) 2 and 3 interpreters sharing one Program run as cooperative threads yielding at every VM instruction: all schedules within a deviation bound give each interpreter its single-run result. The Program comparison is a reflective deep dump (unexported fields, spare capacity, regexes); package-level variables of all goawk packages are dumped around executions; a supplementary free-running -race pass (harness/cmd/vrace) runs the sharing programs with real goroutines. Three programs that start child processes through the default shell are part of the immutability comparison and of the race pass; programs with several unused comma-expressions and with type errors reached through calls are part of the map-order exploration.",
     "Map order is owned via the overlay's rewrite of every map range; data races proper (memory model) are outside an exhaustive cooperative exploration.",
     "deviation-bounded exploration of map iteration orders and of instruction-level interleavings on the real code",
     "DESIGN.md §5 C19")
 chk("C20", "model_checking",
-    "C04's tree space in five spellings and all contexts, every chain of <=3 (thorough 4) prefix operators x operands x postfix x contexts, every byte value and escape class in strings (all strings of <=3 (4) symbols over a 20-symbol alphabet), all regexes of <=3 (4) pieces over 13 pieces, 51 numeric literals, ~230 simple statements, compound forms with all body combinations, containers and item sequences: parse, print with Program.String, re-parse must succeed, the two trees (vexp.CanonTree, numbers at 6 significant digits) must be equal, and printing again must give the same text. Also: parenthesised print/printf lists (24 expressions alone, in pairs and triples x 4 redirections).",
+    "C04's tree space in five spellings and all contexts, every chain of <=3 (thorough 4) prefix operators x operands x postfix x contexts, every byte value and escape class in strings (all strings of <=3 (4) symbols over a 20-symbol alphabet), all regexes of <=3 (4) pieces over 13 pieces, 51 numeric literals, ~230 simple statements, compound forms with all body combinations, containers and item sequences: parse, print with Program.String, re-parse must succeed, the two trees (vexp.CanonTree, numbers at 6 significant digits) must be equal, and printing again must give the same text. Also: parenthesised print/printf lists (24 expressions alone, in pairs and triples x 4 redirections). Print lists also contain cmd | getline as the leftmost operand of concatenation / arithmetic.",
     "Rejected sources are skipped; grouping nodes and the empty-else distinction are ignored.",
     "complete enumeration of programs over a grammar fragment; print/re-parse round trip compared structurally",
     "DESIGN.md §5 C20")
 
 chk("C11", "model_checking",
-    "Programs generated from all combinations of BEGIN (7 forms incl. getline and ARGV/ARGC edits), one or two rules with every pattern form (plain, expression, regex, ranges incl. same-record and never-closing, field-value ranges) and every action of <=2 operations from {getline, getline v, getline < f, getline v < f, next, nextfile, exit k} (plain, inside a function, inside a loop), END (trace, exit, getline) x every operand list of <=3 (thorough 4) over {fileA, fileB, empty file, -, \"\", v=1, FS=,, missing file}; every trace line prints NR, FNR, FILENAME, NF, $0 and the getline variable; each run is compared with the reference tree evaluator given the same files, and ~25 direct invariants from the statement are evaluated on the trace by the check itself. Also: a long-run family (1300 records; next/nextfile/exit/getline/ranges inside functions and loops) against the reference evaluator.",
+    "Programs generated from all combinations of BEGIN (7 forms incl. getline and ARGV/ARGC edits), one or two rules with every pattern form (plain, expression, regex, ranges incl. same-record and never-closing, field-value ranges) and every action of <=2 operations from {getline, getline v, getline < f, getline v < f, next, nextfile, exit k} (plain, inside a function, inside a loop), END (trace, exit, getline) x every operand list of <=3 (thorough 4) over {fileA, fileB, empty file, -, \"\", v=1, FS=,, missing file}; every trace line prints NR, FNR, FILENAME, NF, $0 and the getline variable; each run is compared with the reference tree evaluator given the same files, and ~25 direct invariants from the statement are evaluated on the trace by the check itself. Also: a long-run family (1300 records; next/nextfile/exit/getline/ranges inside functions and loops) against the reference evaluator. BEGIN kinds also replace the operand list through split() (directly, through an array parameter) or delete an element; a plain getline that reaches a missing operand is part of the reference model; NR / FNR assigned from operands, fields, split, getline and strings.",
     "Reference evaluator as in C01; FILENAME in BEGIN/for stdin is not prescribed (normalised); plain getline reaching a missing operand is outside the model.",
     "complete enumeration of programs x operand lists against a reference evaluator plus trace invariants",
     "DESIGN.md §5 C11")
 
 chk("C06", "model_checking",
-    "Explicit-state search over histories of record operations (read/assign $i for positive, zero, negative, beyond-NF and huge i; NF assignments; $0 assignment; FS/OFS/OUTPUTMODE changes; sub/gsub on fields; $i++ / +=; the getline forms) from 19 (thorough 42) start states: quick = every history of depth <=3 over 40 operations, thorough = depth 3 over 106 operations plus breadth-first depth 5 de-duplicated on the model state with differential replay of discarded equivalents; each history becomes one program replayed from scratch on the real interpreter, observed through a native function (NF, $0, every field, re-read three times) in an eager and a lazy-split variant, compared with the check's own record model; separately the FS splitting rules on every string of length <=5 (6) over 5 symbols x 8 FS values x 3 read orders and every (FS at read, FS assigned later) pair.",
+    "Explicit-state search over histories of record operations (read/assign $i for positive, zero, negative, beyond-NF and huge i; NF assignments; $0 assignment; FS/OFS/OUTPUTMODE changes; sub/gsub on fields; $i++ / +=; the getline forms) from 19 (thorough 42) start states: quick = every history of depth <=3 over 40 operations, thorough = depth 3 over 106 operations plus breadth-first depth 5 de-duplicated on the model state with differential replay of discarded equivalents; each history becomes one program replayed from scratch on the real interpreter, observed through a native function (NF, $0, every field, re-read three times) in an eager and a lazy-split variant, compared with the check's own record model; separately the FS splitting rules on every string of length <=5 (6) over 5 symbols x 8 FS values x 3 read orders and every (FS at read, FS assigned later) pair. Part 3: field lists over 12 encoder-relevant values in csv / tsv output mode (rebuilt $0 = print of the fields = encoding/csv). Part 4: getline var (main input, file) before the first field access in CSV / TSV input mode, INPUTMODE switched off after the fields are fixed.",
     "Own record model written from the statement; blanks for FS=\" \" are space/tab/newline only; NF=2.7 raw read-back is pinned upstream and not in the alphabet.",
     "explicit-state search over operation histories of the real record state against a reference record model",
     "DESIGN.md §5 C06")
@@ -95,13 +95,13 @@ chk("C08", "model_checking",
     "complete enumeration of inputs x chunkings x configurations against encoding/csv, plus write/read round trips",
     "DESIGN.md §5 C08")
 chk("C16", "model_checking",
-    "Programs as sets of usage atoms (scalar use, array use, length(v), v passed to parameter j of function i, constant or expression passed, zero-argument call) over 5 universes (2 functions x 2 parameters, 3 x 1, deep forwarding chains, expression arguments): every atom set up to size 3-5 (thorough 4-6), which yields every call graph incl. self/mutual recursion and calls with fewer arguments; verdict compared with an independent union-find unifier; accepted programs executed and compared with a direct simulation (arrays by reference, scalars copied) and the reference evaluator; every permutation of the top-level items and 4 consistent renamings must keep verdict and behaviour; resolver map-iteration orders explored through the permutation hook with <=2 deviations, verdict must not change.",
+    "Programs as sets of usage atoms (scalar use, array use, length(v), v passed to parameter j of function i, constant or expression passed, zero-argument call) over 5 universes (2 functions x 2 parameters, 3 x 1, deep forwarding chains, expression arguments): every atom set up to size 3-5 (thorough 4-6), which yields every call graph incl. self/mutual recursion and calls with fewer arguments; verdict compared with an independent union-find unifier; accepted programs executed and compared with a direct simulation (arrays by reference, scalars copied) and the reference evaluator; every permutation of the top-level items and 4 consistent renamings must keep verdict and behaviour; resolver map-iteration orders explored through the permutation hook with <=2 deviations, verdict must not change. A fifth naming variant gives parameters the names of special scalar variables (NR, RSTART, RLENGTH, FNR, SUBSEP).",
     "Programs outside the property's antecedent (undefined functions, too many arguments, name clashes) are not generated; which error message is reported is C19's business.",
     "complete enumeration of small programs against a union-find type unifier, plus permutation/renaming metamorphosis and deviation-bounded map-order exploration",
     "DESIGN.md §5 C16")
 
 chk("C12", "model_checking",
-    "25 I/O forms (print >, >>, printf >, print |, cmd | getline [v], system, getline [v] < file incl. missing files, operand files incl. plain getline reaching an operand, close+reopen sequences, /dev/stdout, /dev/stderr, -) x 5 ways of computing the name (constant, concatenation, input field, ARGV, user function); every sequence of <=2 forms (thorough: also all 3-step sequences with constant names) x the 8 flag combinations x Config.OpenFile {nil, recording wrapper}, run on the real interpreter with recorded effects: every process start (os/exec shim), every raw os file call made by package interp (redirected through recording wrappers), wrapper calls, directory contents before/after; allowed effects are a function of the flags, a denied attempt must end the run with an error and nothing after it may run, stdin and - stay available, with a wrapper configured there are no raw opens; an alphabet-gap guard lists every syntactic os/exec site of package interp and reports sites never executed. Every single-step case is repeated as the second Execute of an Interpreter whose first run had the opposite restrictions (flags are per run).",
+    "25 I/O forms (print >, >>, printf >, print |, cmd | getline [v], system, getline [v] < file incl. missing files, operand files incl. plain getline reaching an operand, close+reopen sequences, /dev/stdout, /dev/stderr, -) x 5 ways of computing the name (constant, concatenation, input field, ARGV, user function); every sequence of <=2 forms (thorough: also all 3-step sequences with constant names) x the 8 flag combinations x Config.OpenFile {nil, recording wrapper}, run on the real interpreter with recorded effects: every process start (os/exec shim), every raw os file call made by package interp (redirected through recording wrappers), wrapper calls, directory contents before/after; allowed effects are a function of the flags, a denied attempt must end the run with an error and nothing after it may run, stdin and - stay available, with a wrapper configured there are no raw opens; an alphabet-gap guard lists every syntactic os/exec site of package interp and reports sites never executed. Every single-step case is repeated as the second Execute of an Interpreter whose first run had the opposite restrictions (flags are per run). Part 3: NoArgVars on/off x operands shaped like var=value x flags x OpenFile.",
     "interp reaches the file system and processes only through the redirected os functions and os/exec (other mechanisms such as syscall are outside the hook); real /bin/sh children with echo/read only.",
     "complete enumeration of I/O form sequences x flag configurations on the real interpreter with recorded effects",
     "DESIGN.md §5 C12")
